@@ -67,7 +67,7 @@ CLAIMED = {
  "C17": dict(
    technique="trace validation against Codec.tla's history variable `held` with a counting allocator armed around every call",
    text="Codec.tla carries `held`, the largest working-space need since the work space was created, and marks each call may_alloc iff the new "
-        "configuration needs more. Walks over the graph with large shards (64x palette) are executed with a counting global allocator and buffer "
+        "configuration needs more. Walks over the graph with huge shards (palette scaled x8192: 16 KiB .. 1 MiB; allocation verdicts only on shards >= 400 000 bytes) are executed with a counting global allocator and buffer "
         "address/capacity snapshots; Trace_Codec.tla rejects any call that allocates at least one shard's worth of memory or moves the buffer "
         "although the specification says the held space suffices (rounds, equal/shrinking resets, re-housing across kinds).",
    note="Trusted: TLC, allocator instrumentation. Shard-proportional is decided with shards >= 4 KiB: anything at least one shard long.",
@@ -142,7 +142,7 @@ CLAIMED.update({
         "tree; TLC explores all interleavings of 3 threads over them (no re-entrant initialisation, no deadlock, termination under fairness). Fresh multi-threaded "
         "processes (2..8 threads, barrier, all engines, objects handed over mid-round) are validated by Trace_TableInit.tla: proper nesting, no re-entrancy, nesting "
         "within observed dependencies, every result equal to sequential execution, normal exit (watchdog for hangs).",
-   note="Trusted: TLC, std::sync::LazyLock semantics as modelled. Real schedules are sampled (60 quick / 2000 thorough processes); all schedules only in the model.",
+   note="Trusted: TLC, std::sync::LazyLock semantics as modelled. Race / storm processes sample real schedules (60 quick / 2000 thorough); gated schedules (hook H6) drive fresh processes into every reachable model state with a running initialiser (17 060 quick / 75 394 thorough processes); between hold points the OS schedules.",
    ref="DESIGN.md section 5, C16"),
 })
 PENDING = {}
